@@ -197,7 +197,7 @@ func dollarInsideSegment(u bson.D) bool {
 	return false
 }
 
-func topKeys(d bson.D) []string {
+func applyTopKeys(d bson.D) []string {
 	out := make([]string, len(d))
 	for i, e := range d {
 		out[i] = e.Key
@@ -495,7 +495,7 @@ func oracleNumeric(r *rng, n int, st *oracleStats) []oracleFailure {
 
 // ---- all or nothing through mongokit.Collection ----
 
-func dumpColl(c *mongokit.Collection) [][]byte {
+func applyDumpColl(c *mongokit.Collection) [][]byte {
 	var out [][]byte
 	for _, d := range c.Documents.List {
 		out = append(out, marshal(*d))
@@ -503,7 +503,7 @@ func dumpColl(c *mongokit.Collection) [][]byte {
 	return out
 }
 
-func sameDump(a, b [][]byte) bool {
+func applySameDump(a, b [][]byte) bool {
 	if len(a) != len(b) {
 		return false
 	}
@@ -532,7 +532,7 @@ func oracleAllOrNothing(r *rng, n int, st *oracleStats) []oracleFailure {
 		}
 		u, filters := genUpdate(r, docs[r.intn(k)])
 		st.Evaluations++
-		before := dumpColl(coll)
+		before := applyDumpColl(coll)
 		clone := coll.Clone()
 		var res *mongokit.Result
 		var err error
@@ -548,7 +548,7 @@ func oracleAllOrNothing(r *rng, n int, st *oracleStats) []oracleFailure {
 		if len(st.Samples) < 3 {
 			st.Samples = append(st.Samples, fmt.Sprintf("%d docs, update %s", k, enc(u)))
 		}
-		if !sameDump(before, dumpColl(coll)) {
+		if !applySameDump(before, applyDumpColl(coll)) {
 			sink.add("C11:stored-document-touched", "Collection.Update on a clone changed the original collection's documents", []string{enc(u)})
 			continue
 		}
@@ -575,7 +575,7 @@ func oracleAllOrNothing(r *rng, n int, st *oracleStats) []oracleFailure {
 				st.Nontrivial++
 				st.Dist["rejected-after-partial-success"]++
 			}
-			if !sameDump(before, dumpColl(clone)) {
+			if !applySameDump(before, applyDumpColl(clone)) {
 				sink.add("C11:rejected-update-left-changes", "a rejected update left changed documents in the collection it ran on", []string{enc(u)})
 			}
 			if !failed {
@@ -591,7 +591,7 @@ func oracleAllOrNothing(r *rng, n int, st *oracleStats) []oracleFailure {
 			sink.add("C11:accepted-but-apply-fails", "Collection.Update accepts an update that Apply rejects on some document", []string{enc(u)})
 			continue
 		}
-		after := dumpColl(clone)
+		after := applyDumpColl(clone)
 		// $currentDate results differ by the clock: compare only when the update has none
 		hasClock := false
 		for _, e := range u {
@@ -605,7 +605,7 @@ func oracleAllOrNothing(r *rng, n int, st *oracleStats) []oracleFailure {
 				changed++
 			}
 		}
-		if !hasClock && !sameDump(expect, after) {
+		if !hasClock && !applySameDump(expect, after) {
 			sink.add("C11:collection-update-differs-from-apply", "documents after Collection.Update are not Apply(document)", []string{enc(u)})
 		}
 		if len(res.Modified) != changed || len(res.Changes) != changed {
